@@ -38,13 +38,16 @@ type Driver struct {
 	// ShimFailed: key -> first compiler diagnostic of a package that was generated but does not compile together
 	// with the harness shim (also entered in Rejected, so that callers skip it)
 	ShimFailed map[string]string
-	Race       bool
+	// TypeSchemas: key -> Go type name -> name of the component schema (#/components/schemas/<name>, root
+	// document) the generator built the type from
+	TypeSchemas map[string]map[string]string
+	Race        bool
 }
 
 // Build generates every job, writes shims and links one driver binary.
 // The current directory must be inside mod (see genlab.EnterScratchModule).
 func Build(mod *genlab.Module, name string, jobs []SpecJob, race bool) (*Driver, error) {
-	d := &Driver{Mod: mod, Name: name, Rejected: map[string]string{}, ShimFailed: map[string]string{}, Race: race}
+	d := &Driver{Mod: mod, Name: name, Rejected: map[string]string{}, ShimFailed: map[string]string{}, TypeSchemas: map[string]map[string]string{}, Race: race}
 	var mu sync.Mutex
 	var firstErr error
 	ev.Parallel(len(jobs), runtime.NumCPU(), func(i int) {
@@ -78,8 +81,18 @@ func Build(mod *genlab.Module, name string, jobs []SpecJob, race bool) (*Driver,
 			mu.Unlock()
 			return
 		}
+		ts := map[string]string{}
+		if res.Gen != nil {
+			const pre = "#/components/schemas/"
+			for name, t := range res.Gen.Types() {
+				if t != nil && t.Schema != nil && strings.HasPrefix(t.Schema.Ref.Ptr, pre) && !strings.Contains(t.Schema.Ref.Ptr[len(pre):], "/") {
+					ts[name] = t.Schema.Ref.Ptr[len(pre):]
+				}
+			}
+		}
 		mu.Lock()
 		d.Keys = append(d.Keys, j.Key)
+		d.TypeSchemas[j.Key] = ts
 		mu.Unlock()
 	})
 	if firstErr != nil {
